@@ -15,6 +15,7 @@ for m in ids:
         if ap.returncode:
             meta['status'] = 'patch no longer applies'
             print(m, meta['status']); continue
+        meta.pop('status', None)
         env = dict(os.environ, PYTHONPATH=wt)
         t = subprocess.run(['/venv/bin/python', '-m', 'pytest', '-q', '-p', 'no:cacheprovider', '-x'], cwd=wt, env=env, capture_output=True, text=True)
         meta['suite_with_change'] = t.stdout.strip().splitlines()[-1] if t.stdout.strip() else 'no output'
